@@ -294,7 +294,7 @@ PROPS["C10"] = dict(
          "Streams (op spfx): the whole next()/byte_offset() history of StreamDeserializer<Value> / <IgnoredAny> over EVERY prefix of 19 "
          "fixed streams, every token sequence of length <= 2 (thorough 3) that starts with a value, and 300 (thorough 3000) "
          "concatenations of 1-4 generated values with every separator choice; source chosen per case among str, slice, reader. "
-         "Streams of typed items (op tspfx): the history of StreamDeserializer<_, T> over EVERY prefix of a third of the 470 crafted "
+         "Streams of typed items (op tspfx): the history of StreamDeserializer<_, T> over EVERY prefix of a third of the 1001 crafted "
          "(schema, stream) pairs that start with a value, of the out-of-range literal 10…0e-395 2 as f64 / f32 / Value items, and of "
          "300 (thorough 3000) concatenations of 1-4 texts of one random schema; compared with Model.StreamTyped, and the statement of "
          "c10_typed_stream_prefix evaluated on the crate's histories.",
@@ -368,7 +368,7 @@ PROPS["C09"] = dict(
          "corpus, every token sequence of length <= 2 (thorough 3), multi-line generated documents with 3 mutations each; "
          "Vec<Box<RawValue>> / map-of-RawValue captures of generated arrays and objects with 2 mutations each. "
          "Streams of typed items (op tstream3): next()/byte_offset() histories of StreamDeserializer<_, T> (T = the universal seed of a "
-         "schema) from str, slice and a randomly chunked reader side by side, continuing 3 calls past the end and past errors: 470 "
+         "schema) from str, slice and a randomly chunked reader side by side, continuing 3 calls past the end and past errors: 1001 "
          "crafted (schema, stream) pairs (bare scalars where peek_end_of_value matters - 1 2, 1x, truetrue, nullnull, \"a\"\"b\", [1][2] - "
          "visitor errors, unpositioned enum errors, errors with a peeked byte, multi-line streams) and 1500 (thorough 12000) "
          "concatenations of 1-4 texts of one random schema with every separator choice (none included), each also truncated and "
@@ -509,7 +509,7 @@ PROPS["C12"] = dict(
          "mixed), each also truncated at a random position and corrupted by one mutation; item types Value and IgnoredAny; sources "
          "str, slice, reader. One case = one (stream, item type, source, call count); non-trivial = stream longer than one byte. "
          "Typed item types (op tstream): StreamDeserializer<_, T> with T = the universal seed of a schema, each source on its own line "
-         "(reader with a random chunking): 470 crafted (schema, stream) pairs - bare scalars where peek_end_of_value matters (1 2, 1x, "
+         "(reader with a random chunking): 1001 crafted (schema, stream) pairs - bare scalars where peek_end_of_value matters (1 2, 1x, "
          "truetrue, nullnull, \"a\"\"b\", [1][2], null[]), integers of every width class, floats, options, units, strings / chars / bytes, "
          "Vec / tuple / struct-from-array items, structs / maps from objects, enums in both spellings, Value and IgnoredAny as schema "
          "nodes, visitor errors in the middle of a stream - and 1500 (thorough 12000) concatenations of 1-4 texts (compact or "
@@ -552,7 +552,7 @@ PROPS["C13"] = dict(
          "(modelled) and five typed targets ((i32,i32), Vec<u8>, BTreeMap<String,Vec<i64>>, Option<(String,bool)>, [();3]; "
          "spec only), each also run with a clean end of input after the same k bytes; schema-typed targets (op rfaults: fixed and "
          "random (schema, text) pairs through the universal seed, reader failing after every k, compared with the typed model run "
-         "in fault mode); stream iteration over a failing reader (op sfault: Value items; op tsfault: typed items - a quarter of 470 crafted "
+         "in fault mode); stream iteration over a failing reader (op sfault: Value items; op tsfault: typed items - a quarter of 1001 crafted "
          "(schema, stream) pairs and 400 (thorough 4000) generated streams of one random schema, reader failing after every k with a "
          "random kind / chunking / Interrupted pattern, whole next()/byte_offset() histories of the failing run and of the same bytes "
          "with a clean end, compared with Model.StreamTyped in fault mode); in raw_value builds also Box<RawValue> at top level (model: Model.IoFault.rawFault) and as Vec / map elements (spec only), so that the fault arrives while the reader holds a raw buffer; "
